@@ -417,7 +417,12 @@ class Frame:
         if tag == "enumerate":
             return ("tuple", (("index", it[1]), self.elem(it[1])))
         if tag == "map":
-            return self.closure_ret(it[2], [self.elem(it[1])], site_hint=it[3] if len(it) > 3 else None)
+            r = self.closure_ret(it[2], [self.elem(it[1])], site_hint=it[3] if len(it) > 3 else None)
+            # a closure that creates something fresh per call (a virtual target): the collected vector's elements are distinct
+            # objects, so "the element of this iteration" stays an element of the vector (same rule as index())
+            if _generative(r, self._closure_path(it[2]), self.ev.prog.bodies):
+                return ("elem", ("gen", it))
+            return r
         if tag in ("rev",):
             return self.elem(it[1])
         if tag in ("take", "skip") and isinstance(it[1], tuple) and it[1] and it[1][0] == "map":
